@@ -201,7 +201,11 @@ def drive(ops, timeout=1800):
     if not ops:
         return []
     data = '\n'.join(json.dumps(o, separators=(',', ':')) for o in ops) + '\n'
+    if _watch['armed']:
+        import signal
+        signal.alarm(int(timeout) + 60)         # the model run has a timeout of its own (a ToolError, exit 2)
     rc, out, err = run([DRIVER], input=data, timeout=timeout)
+    watchdog_kick()
     if rc != 0:
         raise ToolError(f'driver exited {rc}: {err[-500:]}')
     lines = [l for l in out.split('\n') if l.strip()]
@@ -212,6 +216,7 @@ def drive(ops, timeout=1800):
 
 def py_call(f):
     """Run a Python-side computation and map exceptions to the model's error enum."""
+    watchdog_kick(_watch.get('last'))
     try:
         r = f()
         r = dict(r)
